@@ -11,7 +11,7 @@ def run(pid, tier, seed):
               "the driver samples that space (and 3-layer models) on the real function; distinct = (model, dict)")
   chk.assumptions = ["quantizers are compared through str() of the quantizer the Q class itself builds from the string",
                      "extended alphabet (Conv1D, separable, recurrent, pooling; forked topologies merged by Add / "
-                     "Concatenate): MC_ModelGraphX / Trace_ModelGraphX; Bidirectional and Conv2DTranspose are not covered"]
+                     "Concatenate), user-defined layers: MC_ModelGraphX / Trace_ModelGraphX; Conv2DTranspose is not covered"]
   mc = run_tlc("MC_ModelGraph", "MC_ModelGraph_" + tier, coverage=True)
   chk.add_mc("MC_ModelGraph_" + tier, mc, "frame conditions of the transcribed rewriting on all models x dictionaries")
   check_coverage(mc, ["Init", "Choose"], "MC_ModelGraph")
